@@ -144,7 +144,7 @@ def assemble(unit, canary=False):
         raw = rustlex.item_text(src, it)
         where = "%s:%s" % (vf.file, vf.fname)
         norm = normalise.normalise_fn(raw, where, applied, vf.rules, vf.subs, keep_visibility=unit.keep_visibility)
-        ovl_path = os.path.join(VX, unit.name, "overlays", vf.overlay)
+        ovl_path = os.path.join(VX, getattr(vf, "unit_dir", None) or unit.name, "overlays", vf.overlay)
         ovl = _read(ovl_path)
         if canary:
             norm = _insert_canary(norm)
@@ -163,7 +163,7 @@ def assemble(unit, canary=False):
 
     for seg in unit.segments:
         if isinstance(seg, VGhost):
-            p = os.path.join(VX, unit.name, seg.path)
+            p = os.path.join(VX, getattr(seg, "unit_dir", None) or unit.name, seg.path)
             text = _read(p)
             lint_ghost_file(text, seg.path)
             out.append("// ---- ghost: %s" % seg.path)
@@ -203,6 +203,11 @@ def assemble(unit, canary=False):
             src, it = _extract(seg.file, seg.path)
             raw = rustlex.item_text(src, it)
             text = raw if unit.keep_visibility else normalise.strip_visibility(raw)
+            for (rule, old, new, why) in getattr(seg, "subs", ()):
+                if old not in text:
+                    raise Undecided("%s: declared substitution no longer applies in trait %s" % (rule, seg.path[-1]))
+                text = text.replace(old, new)
+                applied.add(rule, "%s:%s" % (seg.file, seg.path[-1]), why)
             # N0: the `;` that ends a method declaration moves to its own line
             # N5: return values of method declarations get a name
             def _decl(m):
@@ -212,7 +217,7 @@ def assemble(unit, canary=False):
                     ret = " -> (ret: %s)" % ty
                 return "%s%s%s\n%s;" % (m.group(1), m.group(2), ret, m.group(1))
             text = re.sub(r"(?m)^(\s*)(fn [^;{]*\))\s*(->[^;{]*)?;\s*$", _decl, text)
-            ovl = _read(os.path.join(VX, unit.name, "overlays", seg.overlay))
+            ovl = _read(os.path.join(VX, getattr(seg, "unit_dir", None) or unit.name, "overlays", seg.overlay))
             woven, winfo = weave.weave(text, ovl, seg.overlay)
             out.append("// ---- real item (trait, contract clauses woven): %s %s" % (seg.file, " / ".join(seg.path)))
             emit(woven)
